@@ -131,12 +131,19 @@ pub enum Shape {
 pub struct Case {
     pub shape: Shape,
     pub seps: usize,
+    /// bit 0 / bit 1: write the first / second quantity without a blank between amount and unit (`5m`, `250g`)
+    #[serde(default)]
+    pub glue: u8,
 }
 
 pub const CONN: [&str; 4] = ["to", "in", "into", "as"];
 
 fn q(a: &NumLit, u: &U) -> Vec<Tok> {
     vec![Tok::num(a.clone()), Tok::word(&u.source_name(), Class::Unit)]
+}
+
+fn qg(a: &NumLit, u: &U, glued: bool) -> Vec<Tok> {
+    vec![Tok::num(a.clone()), Tok::word(&u.source_name(), Class::Unit).sp(if glued { 0 } else { 1 })]
 }
 
 pub fn case_line(c: &Case) -> Line {
@@ -148,7 +155,7 @@ pub fn case_line(c: &Case) -> Line {
     };
     match &c.shape {
         Shape::Convert(a, u1, conn, u2) => {
-            push(q(a, u1));
+            push(qg(a, u1, c.glue & 1 != 0));
             push(vec![Tok::word(CONN[*conn as usize % 4], Class::Conn), Tok::word(&u2.target_name(), Class::Unit)]);
         }
         Shape::Chain(a, u1, u2, u3) => {
@@ -156,18 +163,18 @@ pub fn case_line(c: &Case) -> Line {
             push(vec![Tok::word("to", Class::Conn), Tok::word(&u2.target_name(), Class::Unit), Tok::word("to", Class::Conn), Tok::word(&u3.target_name(), Class::Unit)]);
         }
         Shape::AddSub(a, u1, plus, b, u2) => {
-            push(q(a, u1));
+            push(qg(a, u1, c.glue & 1 != 0));
             push(vec![Tok::op(if *plus { '+' } else { '-' })]);
-            push(q(b, u2));
+            push(qg(b, u2, c.glue & 2 != 0));
         }
         Shape::Scale(a, u1, mul, n) => {
             push(q(a, u1));
             push(vec![Tok::op(if *mul { '*' } else { '/' }), Tok::num(n.clone())]);
         }
         Shape::Ratio(a, u1, b, u2) => {
-            push(q(a, u1));
+            push(qg(a, u1, c.glue & 1 != 0));
             push(vec![Tok::op('/')]);
-            push(q(b, u2));
+            push(qg(b, u2, c.glue & 2 != 0));
         }
         Shape::NameMap(u) => push(q(&NumLit::new(1.0), u)),
     }
@@ -295,7 +302,7 @@ impl Prop for Units {
                 nt = true;
                 // transitivity on the real code: U1->U2->U3 equals U1->U3
                 if acc.ok() {
-                    let direct = Case { shape: Shape::Convert(a.clone(), u1.clone(), 0, u3.clone()), seps: c.seps };
+                    let direct = Case { shape: Shape::Convert(a.clone(), u1.clone(), 0, u3.clone()), seps: c.seps, glue: 0 };
                     let dl = case_line(&direct).render(dec, thou);
                     match (w.eval1(&cfg, "en", &dl), &slot) {
                         (Ok(Slot::Ok { v: V::Unit(d, ..), .. }), Slot::Ok { v: V::Unit(x, ..), .. }) => {
@@ -385,7 +392,7 @@ pub fn shape_strategy() -> impl Strategy<Value = Shape> {
 }
 
 pub fn case_strategy() -> impl Strategy<Value = Case> {
-    (shape_strategy(), prop_oneof![2 => Just(0usize), 2 => 1usize..4]).prop_map(|(shape, seps)| Case { shape, seps })
+    (shape_strategy(), prop_oneof![2 => Just(0usize), 2 => 1usize..4], prop_oneof![3 => Just(0u8), 1 => 1u8..4]).prop_map(|(shape, seps, glue)| Case { shape, seps, glue })
 }
 
 /// all ordered pairs of units x amounts x separator conventions (+ the name map)
@@ -397,13 +404,13 @@ pub fn pair_table(amounts: &[f64], seps: &[usize]) -> Vec<Case> {
         let ui = &vocab().units[i];
         for sn in 0..ui.parse_names.len() {
             let name = ((sn as u64 * (1u64 << 32)) / ui.parse_names.len() as u64 + 1) as u32;
-            out.push(Case { shape: Shape::NameMap(U { unit: i, name }), seps: 0 });
+            out.push(Case { shape: Shape::NameMap(U { unit: i, name }), seps: 0, glue: 0 });
         }
         for j in 0..n {
             for a in amounts {
                 for s in seps {
                     k = k.wrapping_add(0x3333_3333);
-                    out.push(Case { shape: Shape::Convert(NumLit::new(*a), U { unit: i, name: k }, (k >> 30) as u8, U { unit: j, name: k.rotate_left(7) }), seps: *s });
+                    out.push(Case { shape: Shape::Convert(NumLit::new(*a), U { unit: i, name: k }, (k >> 30) as u8, U { unit: j, name: k.rotate_left(7) }), seps: *s, glue: ((k >> 11) & 1) as u8 });
                 }
             }
         }
